@@ -349,7 +349,7 @@ def run_case(case):
                     if not world.fsctl.faults_fired:
                         raise
                     info["refused_under_fault"] = str(e.received_codes)
-                    await asyncio.wait_for(server.close(), 1e4)
+                    await common.close_server(server)
                     return
                 dest_abs = absolutize(cwd, case["dest"]) if case["dest"] else cwd
                 target = dest_abs if case["write_into"] else (dest_abs.rstrip("/") + "/" + srcname)
@@ -468,7 +468,7 @@ def run_case(case):
                         if not world.fsctl.faults_fired:
                             raise
                         info["refused_under_fault"] = str(e.received_codes)
-                        await asyncio.wait_for(server.close(), 1e4)
+                        await common.close_server(server)
                         return
                     target = ldest if case["write_into"] else ldest.rstrip("/") + "/" + srcname
                     placed = flatten(tree, target) if kind == "download" else {target: content}
@@ -489,7 +489,7 @@ def run_case(case):
                         if not world.fsctl.faults_fired:
                             raise
                         info["refused_under_fault"] = str(e.received_codes)
-                        await asyncio.wait_for(server.close(), 1e4)
+                        await common.close_server(server)
                         return
                     world.fsctl.fail_at.clear()
                     base = pathlib.PurePosixPath(src_arg)
@@ -514,7 +514,7 @@ def run_case(case):
                         if not world.fsctl.faults_fired:
                             raise
                         info["refused_under_fault"] = str(e.received_codes)
-                        await asyncio.wait_for(server.close(), 1e4)
+                        await common.close_server(server)
                         return
                     want = {k: v for k, v in before.items() if not (k == rsrc or k.startswith(rsrc + "/"))}
                     got = remote_snapshot()
@@ -524,7 +524,7 @@ def run_case(case):
                         viol.append({"clause": "remove-removed-something-else", "subject": subject, "detail": f"remove({src_arg!r}) from cwd {cwd}: wrongly removed {miss}, left behind {extra}"})
             await client.quit()
             await asyncio.sleep(1)
-            await asyncio.wait_for(server.close(), 1e4)
+            await common.close_server(server)
 
         world.run(main())
         gc.collect()
